@@ -704,6 +704,7 @@ func GSTScenario(t *Tape) *Scenario {
 		sc.LatBase, sc.LatJitter = sc.Delta, 0
 	case 1:
 		sc.Partitions = true
+		sc.Factions = t.Chance(SScen, 1, 2) // group partitions: both sides stay alive and talk among themselves
 		sc.GST = int64(sc.TPB) * t.Range(SScen, 1, 40)
 	case 2:
 		chooseFaulty(t, sc, []FaultKind{FAmnesia}, -1)
@@ -717,6 +718,7 @@ func GSTScenario(t *Tape) *Scenario {
 		sc.DupPM = pick(t, SScen, uint64(0), 50)
 		sc.StallPM = pick(t, SScen, uint64(0), 5)
 		sc.TriggerCut = t.Chance(SScen, 1, 2)
+		sc.Factions = t.Chance(SScen, 1, 3)
 		sc.GST = int64(sc.TPB) * t.Range(SScen, 1, 60)
 	}
 	sc.MapOrder = int(t.Draw(SScen, 3))
